@@ -71,18 +71,40 @@ def V(family, key, what, witness, native=None):
 # -------------------------------------------------------------------------------------------------------- round trip: molecules
 
 def build(s, form):
-    """molecule of the claimed domain from SMILES: 'kekule' (Kekule form, 2D coordinates) or 'aromatic' (thiele form)"""
+    """molecule of the claimed domain from SMILES.  form: 'kekule' (Kekule form, 2D coordinates from clean2d), 'kekule-rdkit2d'
+    (Kekule form, coordinates from RDKit's depictor, which honours double-bond labels: brings cis geometry in chains),
+    'aromatic' (thiele form, clean2d).  returns (molecule, has 2D coordinates, info)"""
+    import random
     from chython import smiles
+    from oracles import o11_records as O
     m = smiles(s)
     m.kekule()
     if form == 'aromatic':
         m.thiele()
-    try:
-        m.clean2d()
+    info = {}
+    if form == 'kekule-rdkit2d':
+        from rdkit import Chem
+        from rdkit.Chem import AllChem
+        rd = Chem.MolFromSmiles(s.split(' |')[0])
+        if rd is None or [a.GetAtomicNum() for a in rd.GetAtoms()] != [a.atomic_number for _, a in m.atoms()]:
+            return m, False, {'rdkit2d_unavailable': 1}
+        AllChem.Compute2DCoords(rd)
+        pos = rd.GetConformer().GetPositions()
+        for (_, a), (x, y, _z) in zip(m.atoms(), pos):
+            a.xy = (float(x) * .55, float(y) * .55)
+        m.flush_cache()
         ok2d = True
-    except Exception:   # the 2D layout engine gave up: no coordinates -> configuration is outside the claim for this input
-        ok2d = False
-    return m, ok2d
+    else:
+        random.seed(f'{env.SEED}:{s}')     # clean2d draws its atom order from the global generator
+        try:
+            m.clean2d()
+            ok2d = True
+        except Exception:   # the 2D layout engine gave up: no coordinates -> configuration is outside the claim for this input
+            ok2d = False
+    if ok2d:
+        f, u = O.make_consistent(m)
+        info = {'ct_relabelled_from_2d': f, 'ct_undefined_2d': u}
+    return m, ok2d, info
 
 
 def cmp_mol(O, m, o, stereo, tag):
@@ -107,13 +129,16 @@ def cmp_mol(O, m, o, stereo, tag):
                 out.append((nm, es[k], gs[k]))
         if str(e) != str(o):
             out.append(('canonical', str(e), str(o)))
+        bad = O.ct_geometry_mismatch(o, src=m)   # independent geometry: every label read agrees with the written coordinates
+        if bad:
+            out.append(('cis-trans-vs-coordinates', bad, {k: gs['ct'][k] for k in bad}))
     return out
 
 
 def check_mol(a):
     """a: {'smiles','form','pair','title','meta'} -> (violations, info)"""
     from oracles import o11_records as O
-    m, ok2d = build(a['smiles'], a['form'])
+    m, ok2d, _ = build(a['smiles'], a['form'])
     return check_mol_obj(O, m, ok2d, a)
 
 
@@ -122,7 +147,7 @@ def check_mol_obj(O, m, ok2d, a, pairs=None):
     m.name = a.get('title') or 'record'
     m.meta.clear()
     m.meta.update(a.get('meta') or {'k': 'v'})
-    claimed = a['form'] == 'kekule' and ok2d
+    claimed = a['form'].startswith('kekule') and ok2d
     if claimed and O.explicit_h_on_stereocentre(m):
         claimed = False
         info['filtered_explicit_h'] = 1
@@ -144,9 +169,10 @@ def check_mol_obj(O, m, ok2d, a, pairs=None):
                         len(got)))
             continue
         o = got[0]
-        for field, e, g in cmp_mol(O, m, o, claimed, a) + cmp_text(O, m, o, pair):
+        for field, e, g in cmp_mol(O, m, o, claimed, a):
             vs.append(V(f'rt:{pair}:{field}', f'rt:{pair}:{field}:{a["smiles"]}|{a["form"]}',
                         f'{pair}: {field} not preserved for {a["smiles"]} ({a["form"]}): written {e!r}, read {g!r}', wit, {'expected': e, 'got': g}))
+        vs.extend(text_violations(O, m, o, pair, wit))
         if P()[pair][2] == 'sdf' and not vs:
             # single-record entry point mdl_mol on the MOL block
             from chython.files import mdl_mol
@@ -162,13 +188,15 @@ def check_mol_obj(O, m, ok2d, a, pairs=None):
     return vs, info
 
 
-def cmp_text(O, m, o, pair):
-    out = []
+def text_violations(O, m, o, pair, wit):
+    """title / metadata differences, keyed by (format, diagnosis): one finding per root cause, smallest witness"""
+    out, fmt = [], P()[pair][2]
     if O.norm_title(o.name) != O.norm_title(m.name):
-        out.append(('title', m.name, o.name))
+        out.append(V(f'title:{fmt}:changed', f'title:{fmt}:changed', f'{pair}: title not preserved: written {m.name!r}, read {o.name!r}', wit, o.name))
     e, g = O.norm_meta(m.meta), O.norm_meta(o.meta)
     if e != g:
-        out.append(('meta', e, g))
+        d = diagnose(e, g)
+        out.append(V(f'meta:{fmt}:{d}', f'meta:{fmt}:{d}', f'{pair}: metadata not preserved ({d}): written {e!r}, read {g!r}', wit, {'expected': e, 'got': g}))
     return out
 
 
@@ -179,9 +207,13 @@ def w_mols(items):
     n, keys, samples, vs, st = 0, [], [], [], {'filtered_explicit_h': 0, 'no2d': 0, 'stereo_checked': 0, 'unparsed': 0}
     for s, form in items:
         try:
-            m, ok2d = build(s, form)
+            m, ok2d, binfo = build(s, form)
         except Exception:
             st['unparsed'] += 1   # not a molecule of the library: outside the domain (C03's business)
+            continue
+        for k, x in binfo.items():
+            st[k] = st.get(k, 0) + x
+        if binfo.get('rdkit2d_unavailable'):
             continue
         a = {'smiles': s, 'form': form, 'title': f'rec {len(s)}', 'meta': {'source': s, 'note': 'line one\nline two'}}
         v, info = check_mol_obj(O, m, ok2d, a)
@@ -205,7 +237,7 @@ def build_rxn(a):
     r = random.Random(a['seed'])
     mols, ok = [], True
     for s in a['smiles']:
-        m, ok2d = build(s, 'kekule')
+        m, ok2d, _ = build(s, 'kekule')
         ok = ok and ok2d
         mols.append(m)
     rx = O.make_reaction(mols, r, *a['counts'], offset=a.get('offset', 0))
@@ -254,7 +286,8 @@ def check_rxn(a):
         if len(got) != 1:
             vs.append(V(f'rx:{pair}:count', f'rx:{pair}:count:{tag}', f'{pair}: one reaction written, {len(got)} read back ({tag})', wit, len(got)))
             continue
-        for field, e, g in cmp_rxn(O, w, got[0], ok2d, a) + cmp_text(O, rx, got[0], pair):
+        vs.extend(text_violations(O, rx, got[0], pair, wit))
+        for field, e, g in cmp_rxn(O, w, got[0], ok2d, a):
             vs.append(V(f'rx:{pair}:{field}', f'rx:{pair}:{field}:{tag}', f'{pair}: reaction {field} not preserved ({tag}): written {e!r}, read {g!r}', wit,
                         {'expected': e, 'got': g}))
         if spec[2] == 'rdf' and not vs:
@@ -321,17 +354,13 @@ def check_meta(a):
         got = list(reader(pair, text))
     except Exception as e:
         f = 'title' if a['cls'].startswith('title') else 'meta'
-        return [V(f'{f}:{pair}:exc:{type(e).__name__}', f'{f}:{pair}:exc:{type(e).__name__}',
+        fmt = P()[pair][2]
+        return [V(f'{f}:{fmt}:exc:{type(e).__name__}', f'{f}:{fmt}:exc:{type(e).__name__}',
                   f'{pair}: {where(e)} for printable {f} text ({a["cls"]}): title {a["title"]!r} meta {a["meta"]!r}', wit, repr(e))]
     if len(got) != 2:
-        return [V(f'meta:{pair}:record-count', f'meta:{pair}:record-count', f'{pair}: 2 records written, {len(got)} read; title {a["title"]!r} meta {a["meta"]!r}', wit, len(got))]
+        return [V(f'meta:{P()[pair][2]}:record-count', f'meta:{P()[pair][2]}:record-count', f'{pair}: 2 records written, {len(got)} read; title {a["title"]!r} meta {a["meta"]!r}', wit, len(got))]
     for o in got:
-        e, g = O.norm_meta(a['meta']), O.norm_meta(o.meta)
-        if e != g:
-            d = diagnose(e, g)
-            vs.append(V(f'meta:{pair}:{d}', f'meta:{pair}:{d}', f'{pair}: metadata not preserved ({d}): written {e!r}, read {g!r}', wit, {'expected': e, 'got': g}))
-        if O.norm_title(a['title']) != O.norm_title(o.name):
-            vs.append(V(f'title:{pair}:changed', f'title:{pair}:changed', f'{pair}: title not preserved: written {a["title"]!r}, read {o.name!r}', wit, o.name))
+        vs.extend(text_violations(O, obj, o, pair, wit))
     return vs
 
 
@@ -428,7 +457,7 @@ def check_damaged(a):
                             f'({a["kind"]} {a["detail"]}); following records are lost', wit, repr(e))]
     lost = judge(sigs, got, k)
     if lost is not None:
-        fam = f'mdl-lost:{pair}:{a["kind"]}'
+        fam = f'mdl-lost:{pair.split(">")[1]}:{a["kind"]}'
         return [V(fam, fam, f'{pair}: damaging record {k} ({a["kind"]} {a["detail"]}) loses / alters undamaged records {lost} '
                             f'({len(got)} of {a["n"]} returned)', wit, {'returned': len(got), 'lost_or_changed': lost})]
     return []
@@ -542,7 +571,9 @@ def check_index(a):
                 except EOFError:
                     break
                 except Exception as e:
-                    return [V(f'mdl-exc:{where(e)}', f'mdl-exc:{where(e)}', f'{pair.split(">")[1]}: {where(e)} while reading {a.get("path") or a.get("objspec")} '
+                    if 'path' in a:
+                        return [], 0   # a crash on a repository file is check_testfile's finding
+                    return [V(f'mdl-exc:{where(e)}', f'mdl-exc:{where(e)}', f'{pair.split(">")[1]}: {where(e)} while reading {a.get("objspec")} '
                                                                             f'record by record', wit, repr(e))], 0
         try:
             rd = R(path, indexable=True, **kw)
@@ -550,10 +581,10 @@ def check_index(a):
             rd.reset_index()
             n = len(rd)
         except Exception as e:
-            return [V(f'index:{pair}:open', f'index:{pair}:open:{where(e)}', f'{pair.split(">")[1]}(indexable=True): {where(e)}', wit, repr(e))], 0
+            return [V(f'index:{fmt}:open', f'index:{fmt}:open:{where(e)}', f'{pair.split(">")[1]}(indexable=True): {where(e)}', wit, repr(e))], 0
         tag = a.get('path') or a.get('objspec')
         if n != len(seq):
-            vs.append(V(f'index:{pair}:len', f'index:{pair}:len', f'{pair.split(">")[1]}: len(reader) = {n}, sequential reading gives {len(seq)} records ({tag})', wit, n))
+            vs.append(V(f'index:{fmt}:len', f'index:{fmt}:len', f'{pair.split(">")[1]}: len(reader) = {n}, sequential reading gives {len(seq)} records ({tag})', wit, n))
         import random
         order = list(range(min(n, len(seq))))
         random.Random(a.get('seed', 0)).shuffle(order)
@@ -564,11 +595,11 @@ def check_index(a):
             except ValueError:
                 g = None
             except Exception as e:
-                vs.append(V(f'index:{pair}:exc', f'index:{pair}:exc:{where(e)}', f'{pair.split(">")[1]}: reader[{i}] raises {where(e)} on a {n}-record file ({tag}); '
+                vs.append(V(f'index:{fmt}:exc', f'index:{fmt}:exc:{where(e)}', f'{pair.split(">")[1]}: reader[{i}] raises {where(e)} on a {n}-record file ({tag}); '
                                                                                  f'sequential reading returns the record', wit, repr(e)))
                 break
             if g != seq[i]:
-                vs.append(V(f'index:{pair}:item', f'index:{pair}:item', f'{pair.split(">")[1]}: reader[{i}] differs from the record read sequentially ({tag})', wit,
+                vs.append(V(f'index:{fmt}:item', f'index:{fmt}:item', f'{pair.split(">")[1]}: reader[{i}] differs from the record read sequentially ({tag})', wit,
                             {'index': i, 'got': str(g)[:300], 'sequential': str(seq[i])[:300]}))
                 break
         if not vs and n:
@@ -577,11 +608,11 @@ def check_index(a):
                 try:
                     g = [rec_sig(O, x) for x in rd[sl]]
                 except Exception as e:
-                    vs.append(V(f'index:{pair}:exc', f'index:{pair}:exc:{where(e)}', f'{pair.split(">")[1]}: reader[{sl}] raises {where(e)} ({tag})', wit, repr(e)))
+                    vs.append(V(f'index:{fmt}:exc', f'index:{fmt}:exc:{where(e)}', f'{pair.split(">")[1]}: reader[{sl}] raises {where(e)} ({tag})', wit, repr(e)))
                     break
                 e = [s for s in seq[sl] if s is not None]
                 if g != e:
-                    vs.append(V(f'index:{pair}:slice', f'index:{pair}:slice', f'{pair.split(">")[1]}: reader[{sl}] returns {len(g)} records, sequential reading {len(e)} ({tag})',
+                    vs.append(V(f'index:{fmt}:slice', f'index:{fmt}:slice', f'{pair.split(">")[1]}: reader[{sl}] returns {len(g)} records, sequential reading {len(e)} ({tag})',
                                 wit, {'slice': str(sl), 'got': len(g), 'expected': len(e)}))
                     break
         rd.close()
@@ -671,6 +702,12 @@ def check_rdkit_block(a):
         ms.append(('SDFRead', got[1]))
     except Exception as e:
         return [V('rdkit-block:exc', f'rdkit-block:exc:{where(e)}:{tag}', f'{where(e)} on an RDKit-written molblock ({tag})', wit, repr(e))], {}
+    # what the record says, according to RDKit's own reader (no sanitisation: the record, not a chemistry model)
+    rb = Chem.MolFromMolBlock(block, sanitize=False, removeHs=False)
+    if rb is None or rb.GetNumAtoms() != rd.GetNumAtoms():
+        raise RuntimeError(f'RDKit does not read back its own molblock for {a["smiles"]}')
+    rd_smiles = Chem.MolToSmiles(rd)
+    rd = rb
     exp_atoms = [(x.GetAtomicNum(), x.GetIsotope() or None, x.GetFormalCharge(), x.GetNumRadicalElectrons() > 0) for x in rd.GetAtoms()]
     omap = {Chem.BondType.SINGLE: 1, Chem.BondType.DOUBLE: 2, Chem.BondType.TRIPLE: 3, Chem.BondType.AROMATIC: 4}
     exp_bonds = sorted((min(b.GetBeginAtomIdx(), b.GetEndAtomIdx()) + 1, max(b.GetBeginAtomIdx(), b.GetEndAtomIdx()) + 1, omap[b.GetBondType()])
@@ -691,7 +728,7 @@ def check_rdkit_block(a):
     if not vs:
         # configuration: the library's reading of the same SMILES (both normalised)
         try:
-            ref = D.parse(a['smiles'])
+            ref = D.parse(rd_smiles)     # RDKit's canonical isomeric SMILES: the configuration RDKit means (and depicted)
         except Exception:
             return vs, info
         if G.has_stereo(ref):
@@ -759,6 +796,7 @@ def bounded(run):
 
     # 1. molecules: corpus (Kekule with 2D coordinates -> everything incl. configuration; aromatic form -> constitution, order 4)
     mols = [(s, 'kekule') for s in corpus] + [(s, 'aromatic') for s in corpus[:n_corpus // 3]]
+    mols += [(s, 'kekule-rdkit2d') for s in corpus + STEREO if any(c in s for c in '@/\\')]
     deco = decorated_smiles(r, corpus, 40 if quick else 400)
     mols += [(s, 'kekule') for s in deco] + [(s, 'aromatic') for s in COORD]
     # decorated atlas <= 6 nodes -> SMILES text of each decorated graph (the atlas molecules are rebuilt in the worker from text)
